@@ -2,16 +2,16 @@ SPECIFICATION MCSpec
 CONSTANTS Proc <- MCProc
           WakeOnPut = TRUE
           NP = 2
-          NE = 2
-          NC = 1
-          NOps = 2
-          NAdmin = 2
-          CapSet = {0, 1, 2}
+          NE = 1
+          NC = 2
+          NOps = 1
+          NAdmin = 0
+          CapSet = {0, 1}
           TSet = {2}
-          LaneSet = {1}
-          MaxClock = 0
-          TagSet = {}
-          GetKinds = {"Get", "GetNoWait"}
+          LaneSet = {1, 2}
+          MaxClock = 2
+          TagSet = {0, 1}
+          GetKinds = {"Get", "GetNoWait", "GetTimeout"}
 INVARIANTS SwallowOnlyNil TypeOK Fifo Conservation RefusalInert PerProducerOrder WaitingImpliesEmpty
 PROPERTIES AllStepProps
 CHECK_DEADLOCK FALSE
